@@ -38,16 +38,34 @@ Definition v_near (u v : qvec) : bool := list_eqb qnear u v.
 Definition lz_eqb := list_eqb Z.eqb.
 Definition qq_near (a b : Q * Q) : bool := qnear (fst a) (fst b) && qnear (snd a) (snd b).
 
-(* inner compound members: the w2p of a compound raises on inconsistent input *)
-Fixpoint w2p_res (e : wexpr) (W : wcs) (world : qvec) : option qvec :=
+(* the w2p of a compound raises on inconsistent input; a compound nested as a member of another one raises likewise,
+   so acceptance is decided recursively through the members (a reordering wrapper around a compound is not generated) *)
+Definition members_of (ws : list wexpr) : list wcs :=
+  (fix all (l : list wexpr) : list wcs :=
+     match l with [] => [] | x :: r => match build x with Ok Wx => Wx :: all r | Err _ => all r end end) ws.
+Fixpoint w2p_ok (e : wexpr) (world : qvec) : bool :=
   match e with
   | WCompound ws mapping =>
-      (* rebuild the members to reach compound_w2p (build succeeded, so this does too) *)
-      let fix all (l : list wexpr) : list wcs :=
-        match l with [] => [] | x :: r => match build x with Ok Wx => Wx :: all r | Err _ => all r end end in
-      match compound_w2p (all ws) mapping (1 # 100000000) world with Ok p => Some p | Err _ => None end
-  | _ => Some (w2p W world)
+      (fix go (l : list wexpr) (world : qvec) : bool :=
+         match l with
+         | [] => true
+         | x :: r => match build x with
+                     | Ok Wx => w2p_ok x (firstn (nworld Wx) world) && go r (skipn (nworld Wx) world)
+                     | Err _ => false
+                     end
+         end) ws world
+      && match compound_w2p (members_of ws) mapping (1 # 100000000) world with Ok _ => true | Err _ => false end
+  | WResampled w _ _ => w2p_ok w world
+  | _ => true
   end.
+Definition w2p_res (e : wexpr) (W : wcs) (world : qvec) : option qvec :=
+  if w2p_ok e world then
+    match e with
+    | WCompound ws mapping =>
+        match compound_w2p (members_of ws) mapping (1 # 100000000) world with Ok p => Some p | Err _ => None end
+    | _ => Some (w2p W world)
+    end
+  else None.
 
 Definition agree (c : case) : bool :=
   match build (e c), impl c with
